@@ -7,7 +7,7 @@
 From Coq Require Import List Arith Bool PeanoNat Lia Ring_theory.
 Import ListNotations.
 Require Import Fggs.Model.SCC Fggs.Model.SumProduct Fggs.Model.Kleene
-               Fggs.Proofs.SP_mono Fggs.Proofs.Kleene_control Fggs.Model.Semiring.
+               Fggs.Proofs.SP_mono Fggs.Proofs.Kleene_proofs Fggs.Proofs.Kleene_control Fggs.Model.Semiring.
 
 Section FixpointLoop.
 Context {R : Type} (o : sr_ops R).
@@ -64,3 +64,120 @@ Proof.
   split; rewrite iter_step_Zk; [apply (park_on o Hr Ho G w v Hwf Hv k) | apply (park_on o Hr Ho G w v Hwf Hv (S k))].
 Qed.
 End FixpointLoop.
+
+(** * Bool: the chain stabilises within N steps, N = number of cells *)
+Section BoolHeight.
+Variables (G : grammar) (w : env (R:=bool)).
+Hypothesis Hwf : wf_grammar G = true.
+
+Definition cells : list (nat * list nat) :=
+  flat_map (fun X => map (pair X) (all_assts (lshape G X))) (nonterminals G).
+Definition ncells : nat := length cells.
+Definition cnt (x : env (R:=bool)) : nat := length (filter (fun c => x (fst c) (snd c)) cells).
+
+Lemma in_cells X xi : In (X, xi) cells <-> In X (nonterminals G) /\ In xi (all_assts (lshape G X)).
+Proof.
+  unfold cells. rewrite in_flat_map. split.
+  - intros (Y & HY & H). apply in_map_iff in H as (xj & E & Hxj). injection E as -> ->. auto.
+  - intros [HX Hxi]. exists X. split; [exact HX|]. apply in_map. exact Hxi.
+Qed.
+
+Lemma filter_len_mono {A} (p q : A -> bool) (l : list A) :
+  (forall a, In a l -> p a = true -> q a = true) -> length (filter p l) <= length (filter q l).
+Proof.
+  induction l as [|a l IH]; intros H; [apply Nat.le_refl|]. cbn [filter].
+  assert (IH' : length (filter p l) <= length (filter q l)) by (apply IH; intros b Hb; apply H; right; exact Hb).
+  destruct (p a) eqn:Ep.
+  - rewrite (H a (or_introl eq_refl) Ep). cbn [length]. lia.
+  - destruct (q a); cbn [length]; lia.
+Qed.
+
+Lemma filter_len_eq {A} (p q : A -> bool) (l : list A) :
+  (forall a, In a l -> p a = true -> q a = true) -> length (filter p l) = length (filter q l) ->
+  forall a, In a l -> p a = q a.
+Proof.
+  induction l as [|a l IH]; intros H Hlen b Hb; [destruct Hb|]. cbn [filter] in Hlen.
+  assert (Hmono : length (filter p l) <= length (filter q l))
+    by (apply filter_len_mono; intros c Hc; apply H; right; exact Hc).
+  destruct (p a) eqn:Ep.
+  - rewrite (H a (or_introl eq_refl) Ep) in Hlen. cbn [length] in Hlen.
+    destruct Hb as [<-|Hb]; [rewrite Ep; symmetry; apply (H a (or_introl eq_refl) Ep)|].
+    apply IH; [intros c Hc; apply H; right; exact Hc | lia | exact Hb].
+  - destruct (q a) eqn:Eq; cbn [length] in Hlen; [lia|].
+    destruct Hb as [<-|Hb]; [congruence|].
+    apply IH; [intros c Hc; apply H; right; exact Hc | lia | exact Hb].
+Qed.
+
+Lemma filter_len_le {A} (p : A -> bool) (l : list A) : length (filter p l) <= length l.
+Proof. induction l as [|a l IH]; cbn [filter length]; [lia|]. destruct (p a); cbn [length]; lia. Qed.
+
+Lemma cnt_le_ncells x : cnt x <= ncells.
+Proof. unfold cnt, ncells. apply filter_len_le. Qed.
+
+Lemma cnt_mono x y : env_le_on bool_ops G x y -> cnt x <= cnt y.
+Proof.
+  intros H. unfold cnt. apply filter_len_mono. intros [X xi] Hc Hx. apply in_cells in Hc as [HX Hxi].
+  apply (H X xi HX Hxi Hx).
+Qed.
+
+Lemma cnt_eq x y : env_le_on bool_ops G x y -> cnt x = cnt y -> env_eq_on G x y.
+Proof.
+  intros H Hc X xi HX Hxi.
+  apply (filter_len_eq (fun c => x (fst c) (snd c)) (fun c => y (fst c) (snd c)) cells) with (a := (X, xi)).
+  - intros [Y xj] Hin Hx. apply in_cells in Hin as [HY Hxj]. apply (H Y xj HY Hxj Hx).
+  - exact Hc.
+  - apply in_cells. auto.
+Qed.
+
+Lemma bool_chain_progress n :
+  (exists k, k < n /\ cnt (Zk bool_ops G w k) = cnt (Zk bool_ops G w (S k))) \/ n <= cnt (Zk bool_ops G w n).
+Proof.
+  induction n as [|n IH]; [right; lia|].
+  destruct IH as [(k & Hk & E)|Hn]; [left; exists k; split; [lia | exact E]|].
+  pose proof (cnt_mono _ _ (env_le_le_on bool_ops G _ _ (Zk_chain bool_ops bool_sr_ring bool_sr_ordered G w n))) as Hm.
+  destruct (Nat.eq_dec (cnt (Zk bool_ops G w n)) (cnt (Zk bool_ops G w (S n)))) as [E|E].
+  - left. exists n. split; [lia | exact E].
+  - right. lia.
+Qed.
+
+(** the Boolean Kleene chain reaches its fixed point after at most [ncells] steps *)
+Theorem bool_chain_stabilises :
+  exists k, k <= ncells /\ env_eq_on G (Zk bool_ops G w k) (Zk bool_ops G w (S k)).
+Proof.
+  destruct (bool_chain_progress (S ncells)) as [(k & Hk & E)|Hn].
+  - exists k. split; [lia|]. apply cnt_eq; [|exact E].
+    apply env_le_le_on. apply (Zk_chain bool_ops bool_sr_ring bool_sr_ordered).
+  - pose proof (cnt_le_ncells (Zk bool_ops G w (S ncells))). lia.
+Qed.
+
+(** DESIGN C02_bool_exact: with an exact stopping test and kmax >= number of Boolean cells the
+    loop of [fixed_point] does not warn and returns the least fixed point *)
+Theorem bool_fixed_point_exact (close : env (R:=bool) -> env (R:=bool) -> bool) kmax :
+  (forall x y, close x y = true <-> env_eq_on G x y) ->
+  ncells <= kmax ->
+  exists y0 y1 k,
+    fixed_point_loop (step bool_ops G w) close kmax (zero_env bool_ops) = Some (y0, y1, false)
+    /\ k <= ncells /\ y0 = Zk bool_ops G w k
+    /\ env_eq_on G (step bool_ops G w y0) y0
+    /\ (forall v : env (R:=bool), env_le_on bool_ops G (step bool_ops G w v) v -> env_le_on bool_ops G y0 v).
+Proof.
+  intros Hclose Hk.
+  destruct (fixed_point_loop_spec (step bool_ops G w) close kmax (zero_env bool_ops)) as (k' & Hs & Hk' & Hfail & Hstop).
+  destruct bool_chain_stabilises as (k & Hkn & Hst).
+  assert (Hle : k' <= k).
+  { destruct (le_lt_dec k' k) as [H|H]; [exact H|]. exfalso.
+    specialize (Hfail k H). unfold fp_test in Hfail.
+    rewrite (iter_step_Zk bool_ops G w (S k)), (iter_step_Zk bool_ops G w k) in Hfail.
+    apply Hclose in Hst. congruence. }
+  assert (Hw : (kmax <? k') = false) by (apply Nat.ltb_ge; lia).
+  rewrite Hw in Hs.
+  assert (Hfix : env_eq_on G (Zk bool_ops G w k') (Zk bool_ops G w (S k'))).
+  { apply Hclose. assert (Hk'' : k' <= kmax) by lia. specialize (Hstop Hk''). unfold fp_test in Hstop.
+    rewrite (iter_step_Zk bool_ops G w (S k')), (iter_step_Zk bool_ops G w k') in Hstop. exact Hstop. }
+  rewrite (iter_step_Zk bool_ops G w (S k')), (iter_step_Zk bool_ops G w k') in Hs.
+  exists (Zk bool_ops G w k'), (Zk bool_ops G w (S k')), k'.
+  split; [exact Hs|]. split; [lia|]. split; [reflexivity|].
+  destruct (Zk_fixed_is_least bool_ops bool_sr_ring bool_sr_ordered G w k' Hwf Hfix) as (H1 & H2 & _).
+  split; [exact H1 | exact H2].
+Qed.
+End BoolHeight.
